@@ -105,6 +105,10 @@ func RunBinding(e *Env) {
 					bad := ""
 					for i, s := range cl.Srvs {
 						for _, en := range s.Log() {
+							if en.Call == 0 && en.Method == m {
+								// no request of the harness is zero-valued: a typed nil (no message for this node) was sent as an empty message
+								bad = fmt.Sprintf("%s: server %d received a zero-valued %s request (skipped by the per-node function: %v)", m, i, en.Method, skip[cl.IDs[i]])
+							}
 							if en.Call != tok {
 								continue
 							}
